@@ -175,8 +175,8 @@ pub fn run(ctx: &mut Ctx) {
             let mut plain: Vec<u8> = Vec::new();
             for _ in 0..items {
                 match rng.range(0, 3) {
-                    0 => { let (s, o) = (rng.range(0, 0xFFFF) as u32, rng.range(0, 0xFFFF) as u32); plain.extend_from_slice(&[(s >> 8) as u8, s as u8, o as u8, (o >> 8) as u8]); script.push((0, s, o, Vec::new())); }
-                    1 => { let (s, o) = (rng.range(0, 0xFFFF) as u32, rng.next() as u32); plain.extend_from_slice(&[(s >> 8) as u8, s as u8]); plain.extend_from_slice(&o.to_le_bytes()); script.push((1, s, o, Vec::new())); }
+                    0 => { let (s, o) = (crate::c11::edge_size(&mut rng, false), rng.range(0, 0xFFFF) as u32); plain.extend_from_slice(&[(s >> 8) as u8, s as u8, o as u8, (o >> 8) as u8]); script.push((0, s, o, Vec::new())); }
+                    1 => { let (s, o) = (crate::c11::edge_size(&mut rng, false), rng.next() as u32); plain.extend_from_slice(&[(s >> 8) as u8, s as u8]); plain.extend_from_slice(&o.to_le_bytes()); script.push((1, s, o, Vec::new())); }
                     _ => { let len = rng.range(0, 50) as usize; let p = rng.bytes(len); plain.extend_from_slice(&p); script.push((2, 0, 0, p)); }
                 }
             }
@@ -243,8 +243,8 @@ pub fn run(ctx: &mut Ctx) {
             for i in 0..items {
                 let refused = i > 0 && rng.chance(1, 4) || (k % 7 == 0 && i == 0);
                 let start = plain.len();
-                if rng.chance(1, 2) { let (s, o) = (rng.range(0, 0xFFFF) as u32, rng.range(0, 0xFFFF) as u32); plain.extend_from_slice(&[(s >> 8) as u8, s as u8, o as u8, (o >> 8) as u8]); script.push((0, s, o, refused)); }
-                else { let (s, o) = (rng.range(0, 0xFFFF) as u32, rng.next() as u32); plain.extend_from_slice(&[(s >> 8) as u8, s as u8]); plain.extend_from_slice(&o.to_le_bytes()); script.push((1, s, o, refused)); }
+                if rng.chance(1, 2) { let (s, o) = (crate::c11::edge_size(&mut rng, false), rng.range(0, 0xFFFF) as u32); plain.extend_from_slice(&[(s >> 8) as u8, s as u8, o as u8, (o >> 8) as u8]); script.push((0, s, o, refused)); }
+                else { let (s, o) = (crate::c11::edge_size(&mut rng, false), rng.next() as u32); plain.extend_from_slice(&[(s >> 8) as u8, s as u8]); plain.extend_from_slice(&o.to_le_bytes()); script.push((1, s, o, refused)); }
                 if !refused { keep.push((start, plain.len())); }
             }
             let facade = k % 2 == 0;
@@ -287,5 +287,7 @@ pub fn run(ctx: &mut Ctx) {
             ctx.count("oracle4_failed_write_histories");
         }
     }
+    // ---- oracle 5: typed traffic through a receive buffer (see c11::typed_traffic)
+    { let n = if ctx.quick() { 300 } else { 3000 }; crate::c11::typed_traffic(ctx, 0, n); }
     ctx.exhaustive.push(format!("step table: all 40 x 256 x 256 (position, previous, input) combinations, both directions, for {} key(s)", nkeys));
 }
